@@ -26,7 +26,7 @@ import framework as fw
 KNOWN_CONTENT = ("", "OLD", "SENTINEL")
 RDF_PARSE_FORMAT = {None: "xml", "xml": "xml", "pretty-xml": "xml", "turtle": "turtle", "ttl": "turtle",
                     "nt": "nt", "ntriples": "nt", "nt11": "nt", "n3": "n3", "json-ld": "json-ld"}
-INVALID_KINDS = ("notype", "emptytype", "dupid", "dupprop", "dupsec")
+INVALID_KINDS = ("notype", "emptytype", "dupid", "dupprop", "dupsec", "dupid_far", "dupid_prop")
 FAULTS = ("obj_author", "gen_author", "nul_author", "ctrl_value", "surrogate_value", "validation_crash")
 TARGETS = ("absent", "old", "missing_dir", "is_dir")
 NAMES = ("f.out", "f", "d.1/f", "x.y:f", "f.rdf.ttl")
@@ -73,6 +73,15 @@ def build_doc(spec):
     return doc, secs
 
 
+def _ancestors(sec):
+    out = []
+    cur = sec.parent
+    while cur is not None and len(out) < 100:
+        out.append(cur)
+        cur = getattr(cur, "parent", None)
+    return out
+
+
 def inject(doc, secs, case):
     """Applies the 'invalid', 'warn' and 'fault' parts of the case. -> list of skipped injections."""
     import odml
@@ -89,6 +98,26 @@ def inject(doc, secs, case):
         clone = pick.clone(keep_id=True)
         clone.name = "clone_of_" + pick.name
         pick.parent.append(clone)
+    elif inv == "dupid_far":
+        # the two objects of one id sit in different branches, at different depths
+        clone = pick.clone(keep_id=True)
+        clone.name = "clone_of_" + pick.name
+        others = [s for s in secs if s is not pick and s is not pick.parent
+                  and all(a is not pick for a in _ancestors(s))]
+        if others:
+            others[case.get("pick", 0) % len(others)].append(clone)
+        else:
+            far = odml.Section(name="far", type="ft", parent=doc)
+            odml.Section(name="farther", type="ft", parent=far).append(clone)
+    elif inv == "dupid_prop":
+        # only two Properties share an id, in cousin Sections
+        if pick.properties:
+            pclone = pick.properties[0].clone(keep_id=True)
+            pclone.name = "clone_of_" + pclone.name
+            far = odml.Section(name="far", type="ft", parent=doc)
+            odml.Section(name="farther", type="ft", parent=far).append(pclone)
+        else:
+            skipped.append(inv)
     elif inv == "dupprop":
         try:
             extra = odml.Property(name=pick.properties[0].name, values=[3])
